@@ -1106,6 +1106,9 @@ class Step:
         start = o.handle() if op.get("via") == "handle" and o.hnd is not None else o.view()
         self._allow_path(o, path)
         kindb = "null" if op["target"] is None else "existing" if mat.aliased else "foreign" if mat.foreign else "value"
+        if mat.twin:
+            kindb = "same_name_twin"
+            self.tag = "same_name_twin"
         self.res.features.add(f"bind:{w.schema[t]['k']}:{kindb}:{'xref' if '*' in path else 'direct'}")
         self.res.probe("bind_" + kindb)
         if mat.foreign:
@@ -1369,7 +1372,7 @@ class Step:
                     prop = "C10"
                 if getattr(o.buf, "_sim_restored", False):
                     prop = "C20"  # an unpickled object must stay usable: whatever goes wrong in a restored buffer is C20's
-                self.viol(prop, "handle_ne_model", [kind, typegen.features(w.schema, o.t), "xref" if xref else "direct"], f"object {o.k}: {d}; after {str(self.op)[:300]}")
+                self.viol(prop, "handle_ne_model", [kind, typegen.features(w.schema, o.t), "xref" if xref else "direct"] + ([self.tag] if getattr(self, "tag", None) else []), f"object {o.k}: {d}; after {str(self.op)[:300]}")
                 continue
             # 4b: freshly rebuilt view vs handle (C06, never consults the model)
             if w.schema[o.t]["k"] != "str":
